@@ -66,6 +66,10 @@ TABLE = {
             'inv(): the matrix handed to LAPACK is A (resp. [[A,-B],[B,A]]), the result carries X (resp. X11 + i X21) and every fluctuation is -(X dM X), which with M X = 1 gives A inv(A) = 1 in value and every fluctuation; '
             '_scalar_mat_op reassembles row-major.',
             'cholesky, det, eigh, eig, pinv, svd and einsum are outside (LAPACK decompositions / dtype dispatch cannot be encoded); the final step M X = 1 => identity is an argument except for the 1x1 end-to-end case.'),
+    'C11': (True, 'symbolic execution of the JSON writers / readers / dict helpers / file and data-frame transports on symbolic observables behind a rapidjson data-model contract; SMT equality of every attribute after the round trip',
+            'Every attribute of every re-imported Obs / list / array / Corr / nested dict equals the original for all values, fluctuations, replica means and gradients; structure, tags, prange, None pattern, '
+            'idl form and flags are compared concretely; every emitted document validates against the shipped schema (one instantiation, justified by a scan of the schema).',
+            'rapidjson, gzip, file system replaced by contracts / in-memory stand-ins; sqlite, csv text and pickle outside; NaN data outside.'),
 }
 
 NOT_YET = 'check not built yet in this session (work in progress; see DESIGN.md section 4 for the plan)'
